@@ -204,6 +204,11 @@ impl AssemblyCode {
     }
 
     // For inlined code: modify local labels in each instruction
+    /// Number of lines (instructions, labels, comments) of this code
+    pub fn len(&self) -> usize {
+        self.code.len()
+    }
+
     pub fn append_code(&mut self, code: &AssemblyCode, inline_counter: u32) {
         for i in &code.code {
             match i {
